@@ -199,9 +199,24 @@ def scan():
                                 for t in n.targets:
                                     if isinstance(t, ast.Attribute) and isinstance(t.value, ast.Name) and t.value.id == "self":
                                         aliases.add(t.attr)
+                # R4: class-level attributes bound to a mutable object and never re-bound per instance are shared by all instances
+                class_mut = set()
+                for m in s.body:
+                    if isinstance(m, (ast.Assign, ast.AnnAssign)) and m.value is not None and is_mutable_default(m.value):
+                        for t in (m.targets if isinstance(m, ast.Assign) else [m.target]):
+                            if isinstance(t, ast.Name):
+                                class_mut.add(t.id)
+                rebound = set()
+                for m in s.body:
+                    if isinstance(m, ast.FunctionDef):
+                        for n in ast.walk(m):
+                            if isinstance(n, (ast.Assign, ast.AnnAssign)):
+                                for t in (n.targets if isinstance(n, ast.Assign) else [n.target]):
+                                    if isinstance(t, ast.Attribute) and isinstance(t.value, ast.Name) and t.value.id == "self":
+                                        rebound.add(t.attr)
                 for m in s.body:
                     if isinstance(m, (ast.FunctionDef, ast.AsyncFunctionDef)):
-                        visit_fn(m, s.name, aliases, set())
+                        visit_fn(m, s.name, aliases | (class_mut - rebound), set())
     callers = []
     for f in sorted(funcs_with_sites):
         cs = calls.get(f, [])
